@@ -15,6 +15,8 @@ import tempfile
 import traceback
 
 import myokit
+import itertools
+
 import numpy as np
 
 import chi
@@ -324,11 +326,8 @@ def w_history(case):
                          % (role, diff), 'history': lab, 'expected': strip(at_copy),
                          'observed': strip(now),
                          'behaviour': 'copy_indep'})
-    # (models copied on the way are part of the state: a history that ends in a
-    # copy must be extended, although the model carried on looks the same)
     state = key_of([kind, strip(obs_key(obs)), mach.adm, mach.reg, mach.outs,
-                    mach.sens, [[role, key_of(strip(at_copy))]
-                                for _, at_copy, role in others]])
+                    mach.sens])
     return {'state': state, 'transitions': len(history) + 4,
             'outcome': state, 'violations': viol}
 
@@ -530,9 +529,7 @@ def w_red_history(case):
                          'history': lab, 'expected': at_copy, 'observed': now,
                          'behaviour': 'red_copy_indep'})
     state = key_of([kind, {k: obs[k] for k in obs if k != 'probe_error'},
-                    sorted(fixed.items()), mach,
-                    [[sorted(of.items()), key_of(at_copy)]
-                     for _, of, at_copy in others]])
+                    sorted(fixed.items()), mach])
     return {'state': state, 'transitions': len(history) + 3, 'outcome': state,
             'violations': viol}
 
@@ -540,15 +537,50 @@ def w_red_history(case):
 WORKERS = {}
 
 
-def make_red_search(kind, depth):
+def _after_copy_pass(name, worker, ops, part, st, workers, tail):
+    """The canonical state does not contain the models copied on the way, so a
+    history ending in a copy is never extended by the BFS. Second pass: from every
+    reached state, copy (continue on the copy / on the original), then every
+    sequence of `tail` further operations; the final comparison of the retained
+    model with its observation at the moment of copying decides independence."""
+    from ..core import engine
+    rest = [o for o in ops if o not in ('copyC', 'copyO')]
+    extra = []
+    for key, hist in sorted(part.paths.items(), key=lambda kv: (len(kv[1]), kv[1])):
+        for cp in ('copyC', 'copyO'):
+            for seq in itertools.product(rest, repeat=tail):
+                extra.append(list(hist) + [cp] + list(seq))
+            if tail > 1:
+                for o in rest:
+                    extra.append(list(hist) + [cp, o])
+    p2 = engine.Part(name, extra, worker, part.descr)
+    st2 = engine.explore([p2], workers)[name]
+    for v in st2['violations']:
+        v['case_index'] += len(part.cases)
+    part.cases += extra
+    part.descr += '; then from every reached state: copy + every sequence of <= %d ' \
+                  'further operations' % tail
+    st['cases'] += st2['cases']
+    st['states'] |= st2['states']
+    st['transitions'] += st2['transitions']
+    st['outcomes'] |= st2['outcomes']
+    st['violations'] += st2['violations']
+    st['info']['after_copy_histories'] = len(extra)
+    return part, st
+
+
+def make_red_search(kind, depth, tail=1):
     name = 'reduced_' + kind
     WORKERS[name] = w_red_history
 
     def run(workers):
-        return bfs(name, w_red_history, RED_OPS, depth, seeds=[[kind]],
-                   workers=workers,
-                   descr='BFS over histories on a ReducedMechanisticModel around '
-                         '%s (indirect administration), depth %d' % (kind, depth))
+        part, st = bfs(name, w_red_history, RED_OPS, depth, seeds=[[kind]],
+                       workers=workers,
+                       descr='BFS over histories on a ReducedMechanisticModel '
+                             'around %s (indirect administration), depth %d'
+                             % (kind, depth))
+        return _after_copy_pass(name, w_red_history, RED_OPS, part, st, workers,
+                                tail)
     return run
 
 
@@ -560,15 +592,17 @@ def _ops(kind):
     return ops
 
 
-def make_search(kind, depth, seeds):
+def make_search(kind, depth, seeds, tail=1):
     name = 'histories_' + kind
     WORKERS[name] = w_history
 
     def run(workers):
-        return bfs(name, w_history, _ops(kind), depth,
-                   seeds=[[kind] + s for s in seeds], workers=workers,
-                   descr='BFS over configuration histories on %s, depth %d, seeds %s'
-                   % (kind, depth, seeds))
+        part, st = bfs(name, w_history, _ops(kind), depth,
+                       seeds=[[kind] + s for s in seeds], workers=workers,
+                       descr='BFS over configuration histories on %s, depth %d, '
+                             'seeds %s' % (kind, depth, seeds))
+        return _after_copy_pass(name, w_history, _ops(kind), part, st, workers,
+                                tail)
     return run
 
 
@@ -582,9 +616,10 @@ def build(tier, seed):
     if tier == 'quick':
         searches = [make_search('lib1', 3, seeds), make_red_search('lib1', 3)]
     else:
-        searches = [make_search('lib1', 10, seeds), make_search('chain2', 10, seeds),
+        searches = [make_search('lib1', 10, seeds, 2),
+                    make_search('chain2', 10, seeds),
                     make_search('lib2', 10, seeds[:2]),
-                    make_red_search('lib1', 5), make_red_search('chain2', 4)]
+                    make_red_search('lib1', 5, 2), make_red_search('chain2', 4)]
     return {
         'parts': [],
         'searches': searches,
